@@ -26,6 +26,8 @@ const (
 
 var ErrNonUnique = errors.New("non-unique record name")
 
+var errInvalidRecord = errors.New("invalid record value")
+
 // Index is an FAI index.
 type Index map[string]Record
 
@@ -200,13 +202,27 @@ func ReadFrom(r io.Reader) (idx Index, err error) {
 		} else if _, exists := idx[rec[nameField]]; exists {
 			return nil, parseError(line, 0, ErrNonUnique)
 		}
-		idx[rec[nameField]] = Record{
+		r := Record{
 			Name:         rec[nameField],
 			Length:       mustAtoi(rec, lengthField, line),
 			Start:        mustAtoi64(rec, startField, line),
 			BasesPerLine: mustAtoi(rec, basesField, line),
 			BytesPerLine: mustAtoi(rec, bytesField, line),
 		}
+		// Positions are computed by dividing by the line geometry,
+		// so it must describe lines of at least one base that are
+		// not shorter in bytes than in bases.
+		switch {
+		case r.Length < 0:
+			return nil, parseError(line, lengthField, errInvalidRecord)
+		case r.Start < 0:
+			return nil, parseError(line, startField, errInvalidRecord)
+		case r.BasesPerLine < 0, r.BasesPerLine == 0 && r.Length != 0:
+			return nil, parseError(line, basesField, errInvalidRecord)
+		case r.BytesPerLine < r.BasesPerLine:
+			return nil, parseError(line, bytesField, errInvalidRecord)
+		}
+		idx[rec[nameField]] = r
 	}
 }
 
